@@ -6,7 +6,8 @@
 //     variant  W1-3: 0 x86-64, 1 AArch64      W4: 0 JitRuntime::add/release, 1 JitAllocator ops, 2 VirtMem ops
 //     mode     bit0: continue after the first error (W1/W2/W5 only; every later error is tolerated, no crash allowed)
 //   ops: [code<50, a, b, c]   program step of the workload (decoded robustly)
-//        [90, kind, k, from]  fault entry: kind 0 arena (H1 hook) 1 heap (malloc/realloc/calloc) 2 virtual memory
+//        [90, kind, k, from, size, site]  fault entry (size / site optional: only requests of that size / issued by the function
+//                             whose name hashes to `site` are counted by this entry): kind 0 arena (H1 hook) 1 heap (malloc/realloc/calloc) 2 virtual memory
 //                             (mmap/mprotect/ftruncate/shm_open/memfd_create); fail request #k (from!=0: every request >= k)
 // Oracle: see vh_run.
 #define VH_MAIN
@@ -21,6 +22,7 @@
 #include <asmjit/support/arenavector.h>
 
 #include <errno.h>
+#include <execinfo.h>
 #include <sys/mman.h>
 #include <sys/syscall.h>
 
@@ -37,10 +39,13 @@ extern "C" void __lsan_ignore_object(const void* p);
 // =============================================================================================
 // fault engine
 // =============================================================================================
+extern "C" void __sanitizer_print_stack_trace();
+extern "C" void __sanitizer_symbolize_pc(void* pc, const char* fmt, char* out_buf, size_t out_buf_size);
 namespace fi {
+static bool g_trace_fail = false;
 enum Kind : int { kArena = 0, kHeap = 1, kVm = 2, kKinds = 3 };
 static const char* const kKindName[] = {"arena", "heap", "vm"};
-struct Entry { int kind; uint64_t k; bool from; };
+struct Entry { int kind; uint64_t k; bool from; uint64_t size; uint64_t seen; uint64_t site; };   // site != 0: only requests whose requesting function hashes to it   // size != 0: only requests of exactly that size are counted by this entry
 struct Blk { size_t size; uint64_t seq; int phase; };
 struct State {
   bool armed = false;      // requests are counted and failed according to the plan
@@ -52,7 +57,9 @@ struct State {
   int nplan = 0;
   uint64_t heap_seq = 0;
   uint64_t munmap_unknown = 0;
-  uint64_t suppressed = 0;   // faults not injected because their call site is a listed known crash
+  uint64_t suppressed = 0;
+  bool record_sites = false, need_site = false;
+  std::map<uint64_t, std::pair<uint64_t, std::string>>* sites = nullptr;   // [kKinds] requesting functions of a clean run (enumeration)   // faults not injected because their call site is a listed known crash
   const char* last_fail = "";
   std::unordered_map<void*, Blk>* live = nullptr;
   std::unordered_map<void*, size_t>* maps = nullptr;
@@ -61,23 +68,55 @@ struct State {
 static State S;
 
 // `excluded_site`: the request comes from a call site whose failure is a listed known crash; the fault is suppressed and counted.
-static inline bool should_fail(int kind, const char* what, bool excluded_site = false) {
+// Names the AsmJit function that issued the current request (first frame that is not an allocator helper).
+static char g_site[200] = "";
+static __attribute__((noinline)) void site_name(char* out, size_t out_size) {
+  void* ra[14];
+  int nra = backtrace(ra, 14);     // unwind-table based: safe at any stack depth
+  out[0] = 0;
+  for (int i = 0; i < nra; i++) {
+    char fn[160] = "";
+    if (!ra[i]) break;
+    __sanitizer_symbolize_pc(ra[i], "%f", fn, sizeof fn);
+    if (!fn[0] || strstr(fn, "should_fail") || strstr(fn, "asmjit_verif_fail_alloc") || strstr(fn, "__wrap_") || strstr(fn, "alloc_oneshot") || strstr(fn, "new_oneshot") ||
+        strstr(fn, "alloc_reusable") || strstr(fn, "Arena::") || strstr(fn, "Arena_") || strstr(fn, "new_node_t") || strstr(fn, "site_name") ||
+        strstr(fn, "ArenaVector") || strstr(fn, "ArenaPool") || strstr(fn, "reserve_additional")) continue;
+    snprintf(out, out_size, "%.150s", fn);
+    break;
+  }
+}
+static inline uint64_t site_hash(const char* name) { return (vh::fnv1a(name, strlen(name)) & 0x3FFFFFFFull) | 1ull; }
+static inline bool should_fail(int kind, const char* what, size_t req_size, bool excluded_site = false) {
   if (!S.armed) return false;
   uint64_t idx = S.count[kind]++;
-  for (int i = 0; i < S.nplan; i++) {
-    const Entry& e = S.plan[i];
-    if (e.kind == kind && (e.from ? idx >= e.k : idx == e.k)) {
-      if (excluded_site) { S.suppressed++; return false; }
-      S.hits[kind]++; S.last_fail = what; return true;
-    }
+  uint64_t sh = 0;
+  char nm[160];
+  if (S.need_site || S.record_sites) {
+    site_name(nm, sizeof nm);
+    sh = site_hash(nm);
+    if (S.record_sites && S.sites) { auto& e = S.sites[kind][sh]; if (e.first++ == 0) e.second = nm; }
   }
-  return false;
+  bool fail = false;
+  for (int i = 0; i < S.nplan; i++) {
+    Entry& e = S.plan[i];
+    if (e.kind != kind || (e.size && e.size != req_size) || (e.site && e.site != sh)) continue;
+    uint64_t seen = e.seen++;
+    if (e.from ? seen >= e.k : seen == e.k) fail = true;
+  }
+  if (!fail) return false;
+  if (excluded_site) { S.suppressed++; return false; }
+  S.hits[kind]++; S.last_fail = what;
+  if (S.hits[0] + S.hits[1] + S.hits[2] == 1) { if (!S.need_site && !S.record_sites) site_name(nm, sizeof nm); snprintf(g_site, sizeof g_site, "%s in %s", what, nm); }
+  if (g_trace_fail) { fprintf(stderr, "---- injected failure: %s request #%llu (size %zu) ----\n", what, (unsigned long long)idx, req_size); __sanitizer_print_stack_trace(); }
+  return true;
 }
 static void arm(const std::vector<Entry>& plan) {
   S.nplan = 0;
-  for (const Entry& e : plan) if (S.nplan < 8) S.plan[S.nplan++] = e;
+  S.need_site = false;
+  for (const Entry& e : plan) if (S.nplan < 8) { S.plan[S.nplan] = e; S.plan[S.nplan++].seen = 0; if (e.site) S.need_site = true; }
   for (int k = 0; k < kKinds; k++) { S.count[k] = 0; S.hits[k] = 0; }
   S.last_fail = "";
+  g_site[0] = 0;
   S.suppressed = 0;
   S.armed = true;
 }
@@ -94,14 +133,14 @@ static Site g_constpool_shared = {{nullptr, nullptr, nullptr, nullptr}};   // Co
 static int g_constpool_level = -1;                     // which return-address level distinguishes it (-1: unknown)
 static bool g_exclude_constpool_shared = false;
 }
-extern "C" __attribute__((noinline)) int asmjit_verif_fail_alloc(size_t) noexcept {
+extern "C" __attribute__((noinline)) int asmjit_verif_fail_alloc(size_t req_size) noexcept {
   bool excl = false;
   if (fi::g_calibrating || (fi::g_exclude_constpool_shared && fi::g_constpool_level >= 0 && fi::S.armed)) {
     fi::Site s = {{__builtin_return_address(0), __builtin_return_address(1), __builtin_return_address(2), __builtin_return_address(3)}};
     if (fi::g_calibrating && fi::g_calib) fi::g_calib->push_back(s);
     else excl = s.same(fi::g_constpool_shared, fi::g_constpool_level);
   }
-  return fi::should_fail(fi::kArena, "arena", excl) ? 1 : 0;
+  return fi::should_fail(fi::kArena, "arena", req_size, excl) ? 1 : 0;
 }
 
 extern "C" {
@@ -122,19 +161,19 @@ static void track_add(void* p, size_t n) { if (fi::S.live) (*fi::S.live)[p] = fi
 static void track_del(void* p) { if (fi::S.live) fi::S.live->erase(p); }
 
 void* __wrap_malloc(size_t n) {
-  if (fi::should_fail(fi::kHeap, "malloc")) { errno = ENOMEM; return nullptr; }
+  if (fi::should_fail(fi::kHeap, "malloc", n)) { errno = ENOMEM; return nullptr; }
   void* p = __real_malloc(n);
   if (fi::S.tracking && p) { fi::S.heap_seq++; track_add(p, n); }
   return p;
 }
 void* __wrap_calloc(size_t a, size_t b) {
-  if (fi::should_fail(fi::kHeap, "calloc")) { errno = ENOMEM; return nullptr; }
+  if (fi::should_fail(fi::kHeap, "calloc", a * b)) { errno = ENOMEM; return nullptr; }
   void* p = __real_calloc(a, b);
   if (fi::S.tracking && p) { fi::S.heap_seq++; track_add(p, a * b); }
   return p;
 }
 void* __wrap_realloc(void* old, size_t n) {
-  if (fi::should_fail(fi::kHeap, "realloc")) { errno = ENOMEM; return nullptr; }
+  if (fi::should_fail(fi::kHeap, "realloc", n)) { errno = ENOMEM; return nullptr; }
   void* p = __real_realloc(old, n);
   if (fi::S.tracking && p) { fi::S.heap_seq++; if (old) track_del(old); track_add(p, n); }
   return p;
@@ -144,7 +183,7 @@ void __wrap_free(void* p) {
   __real_free(p);
 }
 void* __wrap_mmap(void* a, size_t len, int prot, int flags, int fd, off_t off) {
-  if (fi::should_fail(fi::kVm, "mmap")) { errno = ENOMEM; return MAP_FAILED; }
+  if (fi::should_fail(fi::kVm, "mmap", len)) { errno = ENOMEM; return MAP_FAILED; }
   void* p = __real_mmap(a, len, prot, flags, fd, off);
   if (fi::S.tracking && p != MAP_FAILED && fi::S.maps) (*fi::S.maps)[p] = len;
   return p;
@@ -158,19 +197,19 @@ int __wrap_munmap(void* a, size_t len) {
   return r;
 }
 int __wrap_mprotect(void* a, size_t len, int prot) {
-  if (fi::should_fail(fi::kVm, "mprotect")) { errno = ENOMEM; return -1; }
+  if (fi::should_fail(fi::kVm, "mprotect", len)) { errno = ENOMEM; return -1; }
   return __real_mprotect(a, len, prot);
 }
 int __wrap_ftruncate(int fd, off_t n) {
-  if (fi::should_fail(fi::kVm, "ftruncate")) { errno = ENOSPC; return -1; }
+  if (fi::should_fail(fi::kVm, "ftruncate", size_t(n))) { errno = ENOSPC; return -1; }
   return __real_ftruncate(fd, n);
 }
 int __wrap_ftruncate64(int fd, off_t n) {
-  if (fi::should_fail(fi::kVm, "ftruncate")) { errno = ENOSPC; return -1; }
+  if (fi::should_fail(fi::kVm, "ftruncate", size_t(n))) { errno = ENOSPC; return -1; }
   return __real_ftruncate64(fd, n);
 }
 int __wrap_shm_open(const char* name, int fl, mode_t m) {
-  if (fi::should_fail(fi::kVm, "shm_open")) { errno = ENOMEM; return -1; }
+  if (fi::should_fail(fi::kVm, "shm_open", 0)) { errno = ENOMEM; return -1; }
   int fd = __real_shm_open(name, fl, m);
   if (fi::S.tracking && fd >= 0 && fi::S.fds) fi::S.fds->insert(fd);
   return fd;
@@ -178,7 +217,7 @@ int __wrap_shm_open(const char* name, int fl, mode_t m) {
 long __wrap_syscall(long n, long a, long b, long c, long d, long e, long f) {
 #if defined(__NR_memfd_create)
   if (n == __NR_memfd_create) {
-    if (fi::should_fail(fi::kVm, "memfd_create")) { errno = ENOMEM; return -1; }   // not ENOSYS: that would disable memfd for the process
+    if (fi::should_fail(fi::kVm, "memfd_create", 0)) { errno = ENOMEM; return -1; }   // not ENOSYS: that would disable memfd for the process
     long fd = __real_syscall(n, a, b, c, d, e, f);
     if (fi::S.tracking && fd >= 0 && fi::S.fds) fi::S.fds->insert(int(fd));
     return fd;
@@ -252,6 +291,10 @@ struct Decoded {
 
 static const char kKeyConstPoolShared[] = "constpool-shared-node-null-deref";
 
+static bool g_wa_init = false;
+static const char kKeyDeltaReloc[] = "embed-label-delta-oom-stale-reloc";
+static bool g_excl_delta = false;       // the key above is listed: relocate_to_base is not called after a failed embed_label_delta
+static uint64_t g_excluded_delta = 0;
 static const char* wname(int W) { static const char* n[] = {"w0", "w1", "w2", "w3", "w4", "w5"}; return n[W >= 1 && W <= 5 ? W : 0]; }
 
 // =============================================================================================
@@ -465,6 +508,7 @@ public:
       reinit_done = code.reinit() == Error::kOk;
     }
     if (!reinit_done) code.reset(rp);
+    if (g_wa_init && !code.is_initialized()) { code._sections.reset(); code._sections_by_order.reset(); }   // development aid only (--wa_init=1)
     pool.reset();
     pool_arena.reset(rp);
     logger.clear();
@@ -515,18 +559,33 @@ public:
 
   void run(Res& r) override {
     Tracker T(r, d.cont);
+    bool has_delta = false, tainted_delta = false;
     BaseEmitter* e = emitter();
     uint64_t base = kW1Bases[umod(d.p[2], NELEM(kW1Bases))];
     if (!code.is_initialized()) {
       Environment env(arch == 0 ? Arch::kX64 : Arch::kAArch64);
-      if (T.bad(code.init(env), "CodeHolder::init")) return;
+      // reinit variant: the base address is part of what reinit() keeps, so it is given to init() in every run
+      if (T.bad((d.p[3] & 8) ? code.init(env, base) : code.init(env), "CodeHolder::init")) return;
       if (T.failed()) return;                       // nothing can be done with an uninitialised CodeHolder
       if (d.p[3] & 1) { logger.set_flags(FormatFlags::kMachineCode | FormatFlags::kHexImms); code.set_logger(&logger); }
       if (d.p[3] & 2) code.set_error_handler(&eh);
     }
     if (e->code() != &code) {
-      if (T.bad(code.attach(e), "CodeHolder::attach")) return;
-      if (e->code() != &code) return;               // not attached: every emitter call would just report kNotInitialized
+      Error aerr = code.attach(e);
+      if (g_wa_init && aerr != Error::kOk) e->_code = nullptr;   // development aid only (--wa_init=1)
+      if (T.bad(aerr, "CodeHolder::attach")) return;
+      if (aerr != Error::kOk || e->code() != &code) return;               // not attached: every emitter call would just report kNotInitialized
+    }
+    if (d.p[3] & 16) {
+      // a short previous use of the same objects followed by reinit() inside the fault window
+      Section* pre = nullptr;
+      TRY(T, inst_plain(e, 1, 0), "emit(plain)");
+      TRY(T, code.new_section(Out(pre), ".pre", SIZE_MAX, SectionFlags::kNone, 8, 0), "CodeHolder::new_section");
+      Label pl = e->new_label();
+      if (pl.is_valid()) TRY(T, e->bind(pl), "bind");
+      Error rerr = code.reinit();
+      if (T.bad(rerr, "CodeHolder::reinit")) return;
+      if (rerr != Error::kOk) return;              // the holder is uninitialised now: nothing more can be done in this run
     }
     // sections
     Section* secs[3] = {code.text_section(), nullptr, nullptr};
@@ -547,6 +606,22 @@ public:
       L[i] = e->new_label();
       if (T.bad(L[i].is_valid() ? Error::kOk : Error::kOutOfMemory, "new_label")) return;
     }
+    // Every label has a home section (where it will be bound). A code reference (jump / rip-relative / literal) to a label that is
+    // already bound in a DIFFERENT section at the time the assembler sees the reference is not generated: the assemblers route it to
+    // new_fixup(), which requires an unbound label (ASMJIT_ASSERT(!le.is_bound())) — outside C15. A Builder serialises section by
+    // section (first-use order = index order here), so for it only references to the same or a later section are generated.
+    auto home = [&](size_t j) -> size_t { return j % nsec; };
+    auto ref_label = [&](int64_t v, size_t cur_sec) -> size_t {
+      for (size_t i = 0; i < nl; i++) {
+        size_t j = (umod(v, nl) + i) % nl;
+        if (home(j) == cur_sec || (builder ? home(j) > cur_sec : !bound[j])) return j;
+      }
+      return nl;
+    };
+    if (builder && nsec > 1) {
+      for (size_t i = 1; i < nsec; i++) TRY(T, e->section(secs[i]), "section");
+      TRY(T, e->section(secs[0]), "section");
+    }
     size_t cur = 0;
     unsigned named = 0;
     int sidx = 0;
@@ -555,14 +630,15 @@ public:
       int64_t a = argof(op, 1), b = argof(op, 2), c = argof(op, 3);
       switch (umod(argof(op, 0), 13)) {
         case 0: TRY(T, inst_plain(e, a, b), "emit(plain)"); break;
-        case 1: TRY(T, inst_jump(e, c, L[umod(a, nl)]), "emit(jump to label)"); break;
+        case 1: { size_t j = ref_label(a, cur); if (j < nl) TRY(T, inst_jump(e, c, L[j]), "emit(jump to label)"); break; }
         case 2: {
-          for (size_t i = 0; i < nl; i++) { size_t j = (umod(a, nl) + i) % nl; if (!bound[j]) { if (L[j].is_valid()) { TRY(T, e->bind(L[j]), "bind"); } bound[j] = 1; break; } }
+          for (size_t i = 0; i < nl; i++) { size_t j = (umod(a, nl) + i) % nl; if (!bound[j] && home(j) == cur) { bound[j] = 1; if (L[j].is_valid()) { TRY(T, e->bind(L[j]), "bind"); } break; } }
           break;
         }
         case 3: { cur = umod(a, nsec); TRY(T, e->section(secs[cur]), "section"); break; }
         case 4: {
           size_t len = kEmbedLens[umod(b, (c & 8) ? NELEM(kEmbedLens) : NELEM(kEmbedLens) - 1)];
+          if (arch == 1) len = (len + 3) & ~size_t(3);   // AArch64: labels / instructions stay 4-byte aligned
           std::string data(len, 0);
           uint32_t x = uint32_t(a) * 2654435761u + 1;
           for (size_t i = 0; i < len; i++) { x = x * 1664525u + 1013904223u; data[i] = char(x >> 24); }
@@ -570,17 +646,23 @@ public:
           break;
         }
         case 5: TRY(T, e->embed_label(L[umod(a, nl)], 8), "embed_label"); break;
-        case 6: TRY(T, e->embed_label_delta(L[umod(a, nl)], L[umod(b, nl)], (c & 1) ? 4 : 8), "embed_label_delta"); break;
+        case 6: {
+          has_delta = true;
+          Error e6 = e->embed_label_delta(L[umod(a, nl)], L[umod(b, nl)], (c & 1) ? 4 : 8);
+          if (e6 != Error::kOk) tainted_delta = true;
+          TRY(T, e6, "embed_label_delta");
+          break;
+        }
         case 7: {
           if (arch == 0) {
             uint64_t addr = (c & 2) ? 0x7F1234561000ull + uint64_t(umod(a, 4)) * 0x1000 : base + 0x2000 + uint64_t(umod(a, 4)) * 0x100;
             x86::Emitter* x = e->as<x86::Emitter>();
             TRY(T, (c & 1) ? x->jmp(imm(addr)) : x->call(imm(addr)), "emit(absolute call/jmp)");
-          } else TRY(T, inst_addr_of(e, 1, L[umod(a, nl)]), "emit(ldr literal)");
+          } else { size_t j = ref_label(a, cur); if (j < nl) TRY(T, inst_addr_of(e, 1, L[j]), "emit(ldr literal)"); }
           break;
         }
         case 8: TRY(T, e->align(AlignMode(umod(c, 3)), uint32_t(1) << umod(b, 6)), "align"); break;
-        case 9: TRY(T, inst_addr_of(e, c, L[umod(a, nl)]), "emit(address of label)"); break;
+        case 9: { size_t j = ref_label(a, cur); if (j < nl) TRY(T, inst_addr_of(e, c, L[j]), "emit(address of label)"); break; }
         case 10: {
           pool.reset();
           uint8_t data[16];
@@ -611,10 +693,11 @@ public:
     T.step = sidx;
     for (size_t i = 0; i < nl; i++) {
       if (bound[i]) continue;
-      if (nsec > 1) { cur = i % nsec; TRY(T, e->section(secs[cur]), "section"); }
+      if (nsec > 1 && cur != home(i)) { cur = home(i); TRY(T, e->section(secs[cur]), "section"); }
       if (L[i].is_valid()) TRY(T, e->bind(L[i]), "bind");
     }
-    if (builder) TRY(T, e->finalize(), "Builder::finalize");
+    if (builder) { Error ef = e->finalize(); if (ef != Error::kOk && has_delta) tainted_delta = true; TRY(T, ef, "Builder::finalize"); }
+    if (tainted_delta && g_excl_delta) { g_excluded_delta++; return; }
     TRY(T, code.flatten(), "CodeHolder::flatten");
     TRY(T, code.resolve_cross_section_fixups(), "CodeHolder::resolve_cross_section_fixups");
     TRY(T, code.relocate_to_base(base), "CodeHolder::relocate_to_base");
@@ -631,6 +714,483 @@ public:
     r.full.append(logger.data(), logger.data_size());
   }
 };
+} // namespace
+
+// =============================================================================================
+// W3 — Compiler: functions with more virtual registers than physical ones, loops, branches, an invoke, constants, a stack slot
+// =============================================================================================
+#define C15_HAVE_W3
+namespace {
+class W3 : public Workload {
+public:
+  const Decoded& d;
+  int arch;
+  CodeHolder code;
+  x86::Compiler xc;
+  a64::Compiler ac;
+  StringLogger logger;
+  ErrH eh;
+
+  explicit W3(const Decoded& d_) : d(d_), arch(d_.variant & 1) {}
+
+  void reset(bool hard) override {
+    code.reset(hard ? ResetPolicy::kHard : ResetPolicy::kSoft);
+    logger.clear();
+    eh = ErrH();
+  }
+
+  struct Open { Label label; bool loop; size_t counter; };
+
+  template<typename CC, typename GP>
+  void gen_func(CC& cc, Tracker& T, size_t nv, unsigned fidx) {
+    constexpr bool X = std::is_same<CC, x86::Compiler>::value;
+    std::vector<GP> v(nv);
+    GP ptr, fn, cnt[3];
+    FuncNode* func = nullptr;
+    TRY(T, cc.add_func_node(Out(func), FuncSignature::build<uint32_t, uint32_t*, uint32_t>()), "Compiler::add_func_node");
+    if (!func) return;
+    auto newreg = [&](GP& out, TypeId t, const char* nm) -> Error { return cc._new_reg_with_name(Out<Reg>(out), t, nm); };
+    TRY(T, newreg(ptr, TypeId::kUIntPtr, "ptr"), "Compiler::new_reg");
+    TRY(T, newreg(fn, TypeId::kUIntPtr, "fn"), "Compiler::new_reg");
+    for (size_t i = 0; i < nv; i++) TRY(T, newreg(v[i], TypeId::kUInt32, (i & 1) ? "v" : nullptr), "Compiler::new_reg");
+    for (size_t i = 0; i < 3; i++) TRY(T, newreg(cnt[i], TypeId::kUInt32, "cnt"), "Compiler::new_reg");
+    func->set_arg(0, ptr);
+    func->set_arg(1, v[0]);
+    for (size_t i = 1; i < nv; i++) TRY(T, cc.mov(v[i], imm(uint32_t(i * 3 + 1))), "emit(mov imm)");
+    std::vector<Open> open;
+    size_t ncnt = 0;
+    unsigned invokes = 0;
+    int sidx = 0;
+    for (const vh::Op& op : d.steps) {
+      T.step = sidx++;
+      int64_t a = argof(op, 1), b = argof(op, 2), c = argof(op, 3);
+      size_t ia = umod(a, nv), ib = umod(b, nv), ic = umod(c + a, nv);
+      switch (umod(argof(op, 0) + fidx * 3, 10)) {
+        case 0: case 1: {
+          if constexpr (X) { switch (umod(c, 4)) { case 0: TRY(T, cc.add(v[ia], v[ib]), "emit(alu)"); break; case 1: TRY(T, cc.xor_(v[ia], v[ib]), "emit(alu)"); break; case 2: TRY(T, cc.imul(v[ia], v[ib]), "emit(alu)"); break; default: TRY(T, cc.lea(v[ia], x86::ptr(v[ib].r64(), v[ic].r64(), 1, 7)), "emit(alu)"); break; } }
+          else { switch (umod(c, 4)) { case 0: TRY(T, cc.add(v[ia], v[ib], v[ic]), "emit(alu)"); break; case 1: TRY(T, cc.eor(v[ia], v[ib], v[ic]), "emit(alu)"); break; case 2: TRY(T, cc.mul(v[ia], v[ib], v[ic]), "emit(alu)"); break; default: TRY(T, cc.add(v[ia], v[ib], imm(7)), "emit(alu)"); break; } }
+          break;
+        }
+        case 2: {
+          if constexpr (X) TRY(T, cc.mov(v[ia], x86::dword_ptr(ptr, int32_t(umod(b, 16)) * 4)), "emit(load)");
+          else TRY(T, cc.ldr(v[ia], a64::ptr(ptr, int32_t(umod(b, 16)) * 4)), "emit(load)");
+          break;
+        }
+        case 3: {
+          if constexpr (X) TRY(T, cc.mov(x86::dword_ptr(ptr, int32_t(umod(b, 16)) * 4), v[ia]), "emit(store)");
+          else TRY(T, cc.str(v[ia], a64::ptr(ptr, int32_t(umod(b, 16)) * 4)), "emit(store)");
+          break;
+        }
+        case 4: {   // open a loop
+          if (open.size() >= 3 || ncnt >= 3) break;
+          Label L = cc.new_label();
+          if (T.bad(L.is_valid() ? Error::kOk : Error::kOutOfMemory, "new_label")) return;
+          if (!L.is_valid()) break;
+          TRY(T, cc.mov(cnt[ncnt], imm(uint32_t(2 + umod(b, 3)))), "emit(mov imm)");
+          TRY(T, cc.bind(L), "bind");
+          open.push_back(Open{L, true, ncnt++});
+          break;
+        }
+        case 5: {   // open a forward branch
+          if (open.size() >= 3) break;
+          Label L = cc.new_label();
+          if (T.bad(L.is_valid() ? Error::kOk : Error::kOutOfMemory, "new_label")) return;
+          if (!L.is_valid()) break;
+          if constexpr (X) { TRY(T, cc.test(v[ia], v[ia]), "emit(test)"); TRY(T, cc.jz(L), "emit(jcc)"); }
+          else TRY(T, cc.cbz(v[ia], L), "emit(cbz)");
+          open.push_back(Open{L, false, 0});
+          break;
+        }
+        case 6: {   // close the innermost loop / branch
+          if (open.empty()) break;
+          Open o = open.back(); open.pop_back();
+          if (o.loop) {
+            if constexpr (X) { TRY(T, cc.sub(cnt[o.counter], imm(1)), "emit(sub)"); TRY(T, cc.jnz(o.label), "emit(jcc)"); }
+            else { TRY(T, cc.sub(cnt[o.counter], cnt[o.counter], imm(1)), "emit(sub)"); TRY(T, cc.cbnz(cnt[o.counter], o.label), "emit(cbnz)"); }
+          } else TRY(T, cc.bind(o.label), "bind");
+          break;
+        }
+        case 7: {   // call through a register
+          if (invokes >= 2) break;
+          invokes++;
+          TRY(T, cc.mov(fn, imm(uint64_t(0x123456789000ull) + uint64_t(umod(a, 8)) * 64)), "emit(mov imm)");
+          InvokeNode* inv = nullptr;
+          TRY(T, cc.invoke(Out(inv), fn, FuncSignature::build<uint32_t, uint32_t, uint32_t>()), "Compiler::invoke");
+          if (!inv) break;
+          inv->set_arg(0, v[ia]);
+          inv->set_arg(1, v[ib]);
+          inv->set_ret(0, v[ic]);
+          break;
+        }
+        case 8: {   // constant (8 bytes: a single size never creates alignment gaps, halves are registered as shared constants)
+          uint64_t val = (uint64_t(umod(a, 5)) << 32) | uint64_t(umod(b, 3));
+          BaseMem m;
+          TRY(T, cc._new_const(Out<BaseMem>(m), (c & 1) ? ConstPoolScope::kGlobal : ConstPoolScope::kLocal, &val, 8), "Compiler::new_const");
+          if (m.is_none()) break;
+          if constexpr (X) { x86::Mem xm = m.as<x86::Mem>(); xm.set_size(4); TRY(T, cc.add(v[ia], xm), "emit(alu const)"); }
+          else { a64::Mem am = m.as<a64::Mem>(); TRY(T, cc.ldr(v[ia], am), "emit(ldr const)"); }
+          break;
+        }
+        default: {  // stack slot
+          BaseMem m;
+          TRY(T, cc._new_stack(Out<BaseMem>(m), 16, 8, nullptr), "Compiler::new_stack");
+          if (m.is_none()) break;
+          if constexpr (X) { x86::Mem xm = m.as<x86::Mem>(); xm.set_size(4); TRY(T, cc.mov(xm, v[ia]), "emit(store stack)"); TRY(T, cc.add(v[ib], xm), "emit(load stack)"); }
+          else { a64::Mem am = m.as<a64::Mem>(); TRY(T, cc.str(v[ia], am), "emit(store stack)"); TRY(T, cc.ldr(v[ib], am), "emit(load stack)"); }
+          break;
+        }
+      }
+    }
+    T.step = sidx;
+    while (!open.empty()) {
+      Open o = open.back(); open.pop_back();
+      if (o.loop) {
+        if constexpr (X) { TRY(T, cc.sub(cnt[o.counter], imm(1)), "emit(sub)"); TRY(T, cc.jnz(o.label), "emit(jcc)"); }
+        else { TRY(T, cc.sub(cnt[o.counter], cnt[o.counter], imm(1)), "emit(sub)"); TRY(T, cc.cbnz(cnt[o.counter], o.label), "emit(cbnz)"); }
+      } else TRY(T, cc.bind(o.label), "bind");
+    }
+    // every virtual register is live until here: more of them than physical registers -> spills
+    for (size_t i = 1; i < nv; i++) {
+      if constexpr (X) TRY(T, cc.add(v[0], v[i]), "emit(alu)");
+      else TRY(T, cc.add(v[0], v[0], v[i]), "emit(alu)");
+    }
+    TRY(T, cc.ret(v[0]), "emit(ret)");
+    TRY(T, cc.end_func(), "Compiler::end_func");
+  }
+
+  void run(Res& r) override {
+    Tracker T(r, false);
+    Environment env(arch == 0 ? Arch::kX64 : Arch::kAArch64);
+    TRY(T, code.init(env), "CodeHolder::init");
+    if (d.p[1] & 1) { logger.set_flags(FormatFlags::kMachineCode); code.set_logger(&logger); }
+    if (d.p[1] & 2) code.set_error_handler(&eh);
+    BaseEmitter* e = arch == 0 ? static_cast<BaseEmitter*>(&xc) : static_cast<BaseEmitter*>(&ac);
+    TRY(T, code.attach(e), "CodeHolder::attach");
+    size_t nv = 3 + umod(d.p[0], 30);
+    unsigned nfunc = (d.p[1] & 4) ? 2 : 1;
+    for (unsigned f = 0; f < nfunc; f++) {
+      if (arch == 0) gen_func<x86::Compiler, x86::Gp>(xc, T, nv, f); else gen_func<a64::Compiler, a64::Gp>(ac, T, nv, f);
+      if (T.failed()) return;
+    }
+    TRY(T, e->finalize(), "Compiler::finalize");
+    TRY(T, code.flatten(), "CodeHolder::flatten");
+    TRY(T, code.resolve_cross_section_fixups(), "CodeHolder::resolve_cross_section_fixups");
+    TRY(T, code.relocate_to_base(0x400000), "CodeHolder::relocate_to_base");
+    size_t cs = code.code_size();
+    std::vector<uint8_t> img(cs + 1, 0xA5);
+    TRY(T, code.copy_flattened_data(img.data(), cs, CopySectionFlags::kPadSectionBuffer | CopySectionFlags::kPadTargetBuffer), "CodeHolder::copy_flattened_data");
+    put_u64(r.bytes, cs);
+    r.bytes.append(reinterpret_cast<char*>(img.data()), cs);
+    r.full = r.bytes;
+    r.full.append(logger.data(), logger.data_size());
+  }
+};
+} // namespace
+
+// =============================================================================================
+// W4 — JitRuntime::add/release (variant 0), JitAllocator alloc/write/shrink/release/query (1), VirtMem alloc/protect/dual mapping (2)
+// =============================================================================================
+#define C15_HAVE_W4
+namespace {
+static JitAllocatorOptions w4_options(int64_t p) {
+  JitAllocatorOptions o = JitAllocatorOptions::kNone;
+  if (p & 1) o |= JitAllocatorOptions::kUseDualMapping;
+  if (p & 2) o |= JitAllocatorOptions::kUseMultiplePools;
+  if (p & 4) o |= JitAllocatorOptions::kFillUnusedMemory;
+  if (p & 8) o |= JitAllocatorOptions::kImmediateRelease;
+  if (p & 16) o |= JitAllocatorOptions::kDisableInitialPadding;
+  return o;
+}
+
+class W4 : public Workload {
+public:
+  const Decoded& d;
+  std::unique_ptr<JitRuntime> rt;
+  std::unique_ptr<JitAllocator> ja;
+  CodeHolder code;
+  x86::Assembler xa;
+  bool unusable = false;    // the allocator could not be constructed (kNotInitialized): the object can only be destroyed
+
+  explicit W4(const Decoded& d_) : d(d_) {}
+
+  void reset(bool) override {
+    // JitAllocator::reset(kSoft) with more than one block is a recorded C09 finding (stale tree links): always hard here.
+    if (unusable) { rt.reset(); ja.reset(); unusable = false; }
+    if (rt) rt->reset(ResetPolicy::kHard);
+    if (ja) ja->reset(ResetPolicy::kHard);
+    code.reset(d.hard ? ResetPolicy::kHard : ResetPolicy::kSoft);
+  }
+
+  void run(Res& r) override {
+    Tracker T(r, false);
+    switch (d.variant) {
+      case 0: run_runtime(r, T); break;
+      case 1: run_allocator(r, T); break;
+      default: run_virtmem(r, T); break;
+    }
+  }
+
+  // ---- variant 0 ----
+  void emit_function(Tracker& T, unsigned fidx, size_t first, size_t count) {
+    x86::Assembler& a = xa;
+    Label L[4];
+    for (Label& l : L) { l = a.new_label(); if (T.bad(l.is_valid() ? Error::kOk : Error::kOutOfMemory, "new_label")) return; }
+    Section* data = nullptr;
+    if ((d.p[1] + fidx) & 1) TRY(T, code.new_section(Out(data), ".data", SIZE_MAX, SectionFlags::kNone, 16, 1), "CodeHolder::new_section");
+    bool bound[4] = {false, false, false, false};
+    for (size_t i = first; i < first + count && i < d.steps.size(); i++) {
+      const vh::Op& op = d.steps[i];
+      T.step = int(i);
+      int64_t x = argof(op, 1), y = argof(op, 2), z = argof(op, 3);
+      switch (umod(argof(op, 0), 7)) {
+        case 0: TRY(T, a.mov(x86::eax, imm(uint32_t(x))), "emit"); break;
+        case 1: TRY(T, a.add(x86::rax, x86::rcx), "emit"); break;
+        case 2: { size_t j = umod(x, 4); TRY(T, (z & 1) ? a.jz(L[j]) : a.jmp(L[j]), "emit(jump)"); break; }
+        case 3: { size_t j = umod(x, 4); if (!bound[j]) { bound[j] = true; TRY(T, a.bind(L[j]), "bind"); } break; }
+        case 4: TRY(T, a.lea(x86::rax, x86::ptr(L[umod(x, 4)])), "emit(lea label)"); break;
+        case 5: TRY(T, a.embed_label(L[umod(x, 4)], 8), "embed_label"); break;
+        default: {
+          static const size_t ls[] = {4, 16, 100, 700, 9000};
+          std::string blob(ls[umod(y, NELEM(ls))], char(x));
+          TRY(T, a.embed(blob.data(), blob.size()), "embed");
+          break;
+        }
+      }
+    }
+    TRY(T, a.ret(), "emit");
+    if (data) TRY(T, a.section(data), "section");
+    for (size_t j = 0; j < 4; j++) if (!bound[j]) { TRY(T, a.bind(L[j]), "bind"); uint64_t v = 0x1111111111111111ull * (j + 1); TRY(T, a.embed(&v, 8), "embed"); }
+  }
+
+  void run_runtime(Res& r, Tracker& T) {
+    if (!rt) {
+      JitAllocator::CreateParams params;
+      params.options = w4_options(d.p[0]);
+      rt.reset(new JitRuntime(&params));
+    }
+    unsigned nfun = 1 + unsigned(umod(d.p[1] / 2, 3));
+    size_t per = d.steps.size() / nfun + 1;
+    std::vector<void*> fns;
+    struct Release { JitRuntime* rt; std::vector<void*>& v; ~Release() { for (void* p : v) if (p) (void)rt->release(p); } } rel{rt.get(), fns};
+    for (unsigned f = 0; f < nfun; f++) {
+      code.reset(ResetPolicy::kSoft);
+      TRY(T, code.init(rt->environment(), rt->cpu_features()), "CodeHolder::init");
+      TRY(T, code.attach(&xa), "CodeHolder::attach");
+      emit_function(T, f, size_t(f) * per, per);
+      if (T.failed()) return;
+      void* fn = nullptr;
+      Error err = rt->add(&fn, &code);
+      if (err == Error::kNotInitialized) unusable = true;
+      TRY(T, err, "JitRuntime::add");
+      if (!fn) { r.sem = "JitRuntime::add returned kOk and a null function pointer"; return; }
+      fns.push_back(fn);
+      // the installed image must equal the CodeHolder's relocated sections; position-dependent slots are normalised
+      size_t cs = code.code_size();
+      std::string img(static_cast<const char*>(fn), cs);
+      std::vector<uint8_t> flat(cs + 1, 0);
+      TRY(T, code.copy_flattened_data(flat.data(), cs, CopySectionFlags::kPadSectionBuffer | CopySectionFlags::kPadTargetBuffer), "CodeHolder::copy_flattened_data");
+      for (Section* s : code.sections()) {
+        if (memcmp(img.data() + s->offset(), s->data(), s->buffer_size()) != 0) { r.sem = "JitRuntime::add: installed bytes differ from the CodeHolder's relocated section buffer"; return; }
+      }
+      for (RelocEntry* re : code.reloc_entries()) {
+        if (re->reloc_type() != RelocType::kRelToAbs || re->format().value_size() != 8) continue;
+        size_t pos = size_t(code.section_by_id(re->source_section_id())->offset() + re->source_offset()) + re->format().value_offset();
+        if (pos + 8 > cs) continue;
+        uint64_t v; memcpy(&v, &img[pos], 8); v -= uint64_t(uintptr_t(fn)); memcpy(&img[pos], &v, 8);
+      }
+      put_u64(r.bytes, cs);
+      r.bytes += img;
+      if ((d.p[2] >> f) & 1) { TRY(T, rt->release(fn), "JitRuntime::release"); fns.back() = nullptr; }
+    }
+    r.full = r.bytes;
+  }
+
+  // ---- variant 1 ----
+  void run_allocator(Res& r, Tracker& T) {
+    if (!ja) {
+      JitAllocator::CreateParams params;
+      params.options = w4_options(d.p[0]);
+      if (d.p[1] & 1) params.granularity = 128;
+      ja.reset(new JitAllocator(&params));
+    }
+    struct Live { JitAllocator::Span span; std::string model; };
+    std::vector<Live> live;
+    struct Release { JitAllocator* ja; std::vector<Live>& v; ~Release() { for (Live& l : v) (void)ja->release(l.span.rx()); } } rel{ja.get(), live};
+    static const size_t sizes[] = {1, 64, 100, 1000, 4096, 10000, 70000, 200000};
+    size_t total = 0;
+    int sidx = 0;
+    for (const vh::Op& op : d.steps) {
+      T.step = sidx++;
+      int64_t x = argof(op, 1), y = argof(op, 2), z = argof(op, 3);
+      switch (umod(argof(op, 0), 7)) {
+        case 0: case 1: {
+          size_t n = sizes[umod(y, (z & 8) ? NELEM(sizes) : NELEM(sizes) - 2)];
+          if (live.size() >= 12 || total + n > 600000) break;
+          JitAllocator::Span span;
+          Error err = ja->alloc(Out(span), n);
+          if (err == Error::kNotInitialized) unusable = true;
+          TRY(T, err, "JitAllocator::alloc");
+          if (!span.rx() || span.size() < n) { r.sem = "JitAllocator::alloc returned kOk with a null / too small span"; return; }
+          Live l; l.span = span; l.model.assign(span.size(), char(0));
+          for (size_t i = 0; i < l.model.size(); i++) l.model[i] = char(uint8_t(x) + uint8_t(i * 7));
+          live.push_back(l);
+          total += span.size();
+          TRY(T, ja->write(live.back().span, 0, live.back().model.data(), live.back().model.size()), "JitAllocator::write");
+          put_u64(r.bytes, span.size());
+          break;
+        }
+        case 2: {
+          if (live.empty()) break;
+          size_t i = umod(x, live.size());
+          TRY(T, ja->release(live[i].span.rx()), "JitAllocator::release");
+          total -= live[i].span.size();
+          live.erase(live.begin() + long(i));
+          break;
+        }
+        case 3: {
+          if (live.empty()) break;
+          Live& l = live[umod(x, live.size())];
+          size_t ns = 1 + umod(y * 131, l.span.size());
+          size_t before = l.span.size();
+          TRY(T, ja->shrink(l.span, ns), "JitAllocator::shrink");
+          if (l.span.size() < ns || l.span.size() > before) { r.sem = "JitAllocator::shrink produced an invalid span size"; return; }
+          total -= before - l.span.size();
+          l.model.resize(l.span.size());
+          put_u64(r.bytes, l.span.size());
+          break;
+        }
+        case 4: {
+          if (live.empty()) break;
+          Live& l = live[umod(x, live.size())];
+          size_t off = umod(y * 37, l.span.size()), n = 1 + umod(z * 991 + x, l.span.size() - off);
+          std::string src(n, char(0x80 | (x & 0x7F)));
+          TRY(T, ja->write(l.span, off, src.data(), n), "JitAllocator::write");
+          l.model.replace(off, n, src);
+          break;
+        }
+        case 5: {
+          if (live.empty()) break;
+          Live& l = live[umod(x, live.size())];
+          JitAllocator::Span q;
+          TRY(T, ja->query(Out(q), l.span.rx()), "JitAllocator::query");
+          if (q.rx() != l.span.rx() || q.size() != l.span.size()) { r.sem = "JitAllocator::query disagrees with the span handed out by alloc/shrink"; return; }
+          break;
+        }
+        default: {
+          if (live.empty()) break;
+          Live& l = live[umod(x, live.size())];
+          size_t keep = 1 + umod(y * 17, l.span.size());
+          size_t before = l.span.size();
+          Error err = ja->write(l.span, [&](JitAllocator::Span& s) noexcept -> Error {
+            memset(s.rw(), 0x3C, keep);
+            s.shrink(keep);
+            return Error::kOk;
+          });
+          TRY(T, err, "JitAllocator::write(fn)");
+          total -= before - l.span.size();
+          l.model.replace(0, keep, std::string(keep, char(0x3C)));
+          l.model.resize(l.span.size());
+          put_u64(r.bytes, l.span.size());
+          break;
+        }
+      }
+    }
+    T.step = sidx;
+    for (Live& l : live) {
+      if (memcmp(l.span.rx(), l.model.data(), l.model.size()) != 0) { r.sem = "JIT memory read back through the rx mapping differs from what was written"; return; }
+      r.bytes += l.model;
+    }
+    JitAllocator::Statistics st = ja->statistics();
+    put_u64(r.bytes, st.allocation_count());
+    put_u64(r.bytes, st.used_size());
+    r.full = r.bytes;
+  }
+
+  // ---- variant 2 ----
+  void run_virtmem(Res& r, Tracker& T) {
+    struct Plain { void* p; size_t n; };
+    struct Dual { VirtMem::DualMapping dm; size_t n; };
+    std::vector<Plain> plain;
+    std::vector<Dual> dual;
+    struct Release { std::vector<Plain>& a; std::vector<Dual>& b; ~Release() { for (Plain& x : a) (void)VirtMem::release(x.p, x.n); for (Dual& x : b) (void)VirtMem::release_dual_mapping(x.dm, x.n); } } rel{plain, dual};
+    size_t page = VirtMem::info().page_size;
+    int sidx = 0;
+    for (const vh::Op& op : d.steps) {
+      T.step = sidx++;
+      int64_t x = argof(op, 1), y = argof(op, 2);
+      switch (umod(argof(op, 0), 6)) {
+        case 0: {
+          if (plain.size() >= 6) break;
+          void* p = nullptr; size_t n = page * (1 + umod(y, 4));
+          TRY(T, VirtMem::alloc(&p, n, VirtMem::MemoryFlags::kAccessReadWrite), "VirtMem::alloc");
+          if (!p) { r.sem = "VirtMem::alloc returned kOk and a null pointer"; return; }
+          memset(p, int(x & 0xFF), n);
+          plain.push_back(Plain{p, n});
+          break;
+        }
+        case 1: {
+          if (plain.empty()) break;
+          Plain& m = plain[umod(x, plain.size())];
+          TRY(T, VirtMem::protect(m.p, m.n, (y & 1) ? VirtMem::MemoryFlags::kAccessRX : VirtMem::MemoryFlags::kAccessRead), "VirtMem::protect");
+          r.bytes += static_cast<const char*>(m.p)[m.n - 1];
+          TRY(T, VirtMem::protect(m.p, m.n, VirtMem::MemoryFlags::kAccessReadWrite), "VirtMem::protect");
+          break;
+        }
+        case 2: {
+          if (plain.empty()) break;
+          size_t i = umod(x, plain.size());
+          TRY(T, VirtMem::release(plain[i].p, plain[i].n), "VirtMem::release");
+          plain.erase(plain.begin() + long(i));
+          break;
+        }
+        case 3: {
+          if (dual.size() >= 4) break;
+          VirtMem::DualMapping dm{};
+          size_t n = page * (1 + umod(y, 4));
+          TRY(T, VirtMem::alloc_dual_mapping(Out(dm), n, VirtMem::MemoryFlags::kAccessRWX), "VirtMem::alloc_dual_mapping");
+          if (!dm.rx || !dm.rw) { r.sem = "VirtMem::alloc_dual_mapping returned kOk with a null mapping"; return; }
+          dual.push_back(Dual{dm, n});
+          break;
+        }
+        case 4: {
+          if (dual.empty()) break;
+          Dual& m = dual[umod(x, dual.size())];
+          memset(m.dm.rw, int(y & 0xFF), m.n);
+          if (static_cast<uint8_t*>(m.dm.rx)[m.n / 2] != uint8_t(y & 0xFF)) { r.sem = "dual mapping: the rx view does not show what was written through rw"; return; }
+          r.bytes += char(y & 0xFF);
+          break;
+        }
+        default: {
+          if (dual.empty()) break;
+          size_t i = umod(x, dual.size());
+          TRY(T, VirtMem::release_dual_mapping(dual[i].dm, dual[i].n), "VirtMem::release_dual_mapping");
+          dual.erase(dual.begin() + long(i));
+          break;
+        }
+      }
+    }
+    put_u64(r.bytes, plain.size()); put_u64(r.bytes, dual.size());
+    r.full = r.bytes;
+  }
+};
+
+// Process-wide caches of virtmem.cpp (hardened-runtime probe, anonymous-memory strategy, memfd availability) are filled before
+// any fault can hit their one-time probes: a failed probe would change the behaviour of every later case of the process.
+static void warm_up_process_caches() {
+  (void)VirtMem::info();
+  (void)VirtMem::hardened_runtime_info();
+  (void)CpuInfo::host();
+  for (int dualm = 0; dualm < 2; dualm++) {
+    JitAllocator::CreateParams params;
+    if (dualm) params.options = JitAllocatorOptions::kUseDualMapping;
+    JitAllocator a(&params);
+    JitAllocator::Span s;
+    if (a.alloc(Out(s), 128) == Error::kOk) (void)a.release(s.rx());
+  }
+  VirtMem::DualMapping dm{};
+  if (VirtMem::alloc_dual_mapping(Out(dm), VirtMem::info().page_size, VirtMem::MemoryFlags::kAccessRWX) == Error::kOk)
+    (void)VirtMem::release_dual_mapping(dm, VirtMem::info().page_size);
+}
 } // namespace
 
 //@@WORKLOADS-END@@
@@ -651,7 +1211,7 @@ static Decoded decode(const vh::Case& c) {
   for (const vh::Op& op : c.ops) {
     if (op.empty()) continue;
     if (op[0] == 90) {
-      if (d.plan.size() < 8) d.plan.push_back(fi::Entry{int(umod(argof(op, 1), 3)), uint64_t(argof(op, 2)) & 0xFFFFFFFull, argof(op, 3) != 0});
+      if (d.plan.size() < 8) d.plan.push_back(fi::Entry{int(umod(argof(op, 1), 3)), uint64_t(argof(op, 2)) & 0xFFFFFFFull, argof(op, 3) != 0, uint64_t(argof(op, 4)) & 0xFFFFFFFFull, 0, uint64_t(argof(op, 5)) & 0x3FFFFFFFull});
     } else if (nsteps < 160) { d.steps.push_back(op); nsteps++; }
   }
   vh::Case k; k.cfg = {d.W, d.variant, d.p[0], d.p[1], d.p[2], d.p[3]}; k.ops = d.steps;
@@ -703,9 +1263,19 @@ static const RefInfo& get_reference(const Decoded& d) {
 // =============================================================================================
 // the property
 // =============================================================================================
+static std::string diff_text(const std::string& a, const std::string& b) {
+  size_t n = std::min(a.size(), b.size()), i = 0;
+  while (i < n && a[i] == b[i]) i++;
+  char m[160];
+  if (i == n && a.size() == b.size()) return "equal";
+  snprintf(m, sizeof m, "first difference at byte %zu of %zu/%zu: 0x%02x vs 0x%02x", i, a.size(), b.size(), i < a.size() ? uint8_t(a[i]) : 0u, i < b.size() ? uint8_t(b[i]) : 0u);
+  return m;
+}
 static std::string plan_text(const Decoded& d) {
   std::string s;
-  for (const fi::Entry& e : d.plan) { char b[64]; snprintf(b, sizeof b, "%s%s#%llu%s", s.empty() ? "" : ",", fi::kKindName[e.kind], (unsigned long long)e.k, e.from ? "+" : ""); s += b; }
+  for (const fi::Entry& e : d.plan) { char b[96]; if (e.site) snprintf(b, sizeof b, "%s%s[site %llu]#%llu%s", s.empty() ? "" : ",", fi::kKindName[e.kind], (unsigned long long)e.site, (unsigned long long)e.k, e.from ? "+" : "");
+    else if (e.size) snprintf(b, sizeof b, "%s%s[size %llu]#%llu%s", s.empty() ? "" : ",", fi::kKindName[e.kind], (unsigned long long)e.size, (unsigned long long)e.k, e.from ? "+" : "");
+    else snprintf(b, sizeof b, "%s%s#%llu%s", s.empty() ? "" : ",", fi::kKindName[e.kind], (unsigned long long)e.k, e.from ? "+" : ""); s += b; }
   return s.empty() ? "none" : s;
 }
 
@@ -742,7 +1312,7 @@ void vh_run(const vh::Case& c, vh::Ctx& ctx) {
   Res f;
   std::unique_ptr<Workload> w;
   uint64_t hits[fi::kKinds], hit_total;
-  const char* failed_request;
+  std::string failed_request_s; const char* failed_request;
   {
     fi::S.phase = 1;
     fi::arm(d.plan);
@@ -751,13 +1321,14 @@ void vh_run(const vh::Case& c, vh::Ctx& ctx) {
     fi::disarm();
     for (int k = 0; k < fi::kKinds; k++) hits[k] = fi::S.hits[k];
     hit_total = fi::total_hits();
-    failed_request = fi::S.last_fail;
+    failed_request_s = fi::g_site[0] ? fi::g_site : fi::S.last_fail; failed_request = failed_request_s.c_str();
+    if (g_excluded_delta) { ctx.known_excluded(kKeyDeltaReloc); g_excluded_delta = 0; }
     if (fi::S.suppressed) { ctx.known_excluded(kKeyConstPoolShared); ctx.cls(W + ".fault_suppressed_known_crash_site"); }
   }
   g_plans++;
-  char where[256];
-  snprintf(where, sizeof where, "plan [%s] (requests in a clean run: arena %llu heap %llu vm %llu); first error %u from %s at step %d",
-           ptxt.c_str(), (unsigned long long)R.n[0], (unsigned long long)R.n[1], (unsigned long long)R.n[2], unsigned(f.err), f.call[0] ? f.call : "-", f.step);
+  char where[512];
+  snprintf(where, sizeof where, "plan [%s] first failed request: %s (requests in a clean run: arena %llu heap %llu vm %llu); first error %u from %s at step %d",
+           ptxt.c_str(), failed_request, (unsigned long long)R.n[0], (unsigned long long)R.n[1], (unsigned long long)R.n[2], unsigned(f.err), f.call[0] ? f.call : "-", f.step);
 
   VH_CHECK(ctx, f.sem.empty(), (pfx + "wrong-content").c_str(), "%s; %s", f.sem.c_str(), where);
   if (hit_total == 0) {
@@ -775,9 +1346,10 @@ void vh_run(const vh::Case& c, vh::Ctx& ctx) {
       if (ctx.want_sample()) ctx.sample(W + " variant " + std::to_string(d.variant) + " " + ptxt + " -> " + f.call + " returned " + std::to_string(unsigned(f.err)) + " (failed request: " + failed_request + ")");
     } else {
       ctx.cls(W + "." + kind + ".completed_despite_fault");
+      if (getenv("C15_DEBUG") && f.bytes != R.res.bytes) { fprintf(stderr, "DIFF %s %s\n", ptxt.c_str(), failed_request); static int n = 0; char fn[64]; snprintf(fn, sizeof fn, "/tmp/c15_diff_%d.case", n++); vh::write_file(fn, c.to_text() + "end\n"); }
       VH_CHECK(ctx, f.bytes == R.res.bytes, (pfx + "success-but-different-bytes").c_str(),
-               "every API call returned kOk although request %s failed, but the output differs from the fault-free run (%zu vs %zu bytes); %s",
-               failed_request, f.bytes.size(), R.res.bytes.size(), where);
+               "every API call returned kOk although request %s failed, but the output differs from the fault-free run (%s); %s",
+               failed_request, diff_text(f.bytes, R.res.bytes).c_str(), where);
     }
   }
 
@@ -790,8 +1362,10 @@ void vh_run(const vh::Case& c, vh::Ctx& ctx) {
     VH_CHECK(ctx, r2.err == Error::kOk, (pfx + "rerun-error").c_str(), "after reset(%s) the fault-free re-run on the same objects fails: %s returned %u at step %d; %s",
              d.hard ? "hard" : "soft", r2.call, unsigned(r2.err), r2.step, where);
     VH_CHECK(ctx, r2.sem.empty(), (pfx + "rerun-wrong-content").c_str(), "%s; %s", r2.sem.c_str(), where);
+    if (getenv("C15_DEBUG") && r2.full != R.res.full) fprintf(stderr, "---- reference tail ----\n%.600s\n---- rerun tail ----\n%.600s\n", R.res.full.c_str() + std::min(R.res.bytes.size(), R.res.full.size()), r2.full.c_str() + std::min(r2.bytes.size(), r2.full.size()));
     VH_CHECK(ctx, r2.bytes == R.res.bytes && r2.full == R.res.full, (pfx + "rerun-differs").c_str(),
-             "after reset(%s) the fault-free re-run on the same objects produces different output (%zu vs %zu bytes); %s", d.hard ? "hard" : "soft", r2.bytes.size(), R.res.bytes.size(), where);
+             "after reset(%s) the fault-free re-run on the same objects produces different output (output: %s; with layout/log: %s); %s", d.hard ? "hard" : "soft",
+             diff_text(r2.bytes, R.res.bytes).c_str(), diff_text(r2.full, R.res.full).c_str(), where);
     if (hit_total) ctx.cls(W + "." + kind + ".rerun_identical");
   }
   w.reset();
@@ -891,6 +1465,7 @@ static vh::Case fixed_instance(int W, int variant, uint64_t seed, size_t nsteps)
 
 static std::vector<vh::Case>* g_enum = nullptr;
 static std::map<std::string, uint64_t> g_enum_points;
+static std::set<std::string> g_enum_sites;
 
 static void build_enumeration(const vh::Opts& o) {
   g_enum = new std::vector<vh::Case>();
@@ -905,7 +1480,10 @@ static void build_enumeration(const vh::Opts& o) {
         Decoded d = decode(base);
         RefInfo R;
         fi::S.tracking = false;
+        std::map<uint64_t, std::pair<uint64_t, std::string>> sites[fi::kKinds];
+        fi::S.sites = sites; fi::S.record_sites = true;
         run_reference(d, R);
+        fi::S.record_sites = false; fi::S.sites = nullptr;
         if (R.res.err != Error::kOk) { fprintf(stderr, "C15: fixed instantiation W%d variant %d #%zu fails without faults (%s -> %u at step %d)\n", W, v, inst, R.res.call, unsigned(R.res.err), R.res.step); continue; }
         for (int kind = 0; kind < fi::kKinds; kind++) {
           g_enum_points[std::string(wname(W)) + "." + fi::kKindName[kind]] += R.n[kind];
@@ -916,6 +1494,16 @@ static void build_enumeration(const vh::Opts& o) {
             g_enum->push_back(c);
             // continue-after-error variant for the emitter / container workloads (every 3rd fault point)
             if ((W == 1 || W == 2 || W == 5) && k % 3 == 0 && k < R.n[kind]) { vh::Case c2 = c; c2.cfg[7] = 1; g_enum->push_back(c2); }
+          }
+          // "every request issued by one function fails" (persistent failure of one allocation site), from its first and from its middle request
+          for (auto& kv : sites[kind]) {
+            g_enum_sites.insert(std::string(fi::kKindName[kind]) + ":" + kv.second.second);
+            for (int half = 0; half < 2; half++) {
+              if (half && kv.second.first < 2) continue;
+              vh::Case c = base;
+              c.ops.push_back(vh::Op{90, kind, int64_t(half ? kv.second.first / 2 : 0), 1, 0, int64_t(kv.first)});
+              g_enum->push_back(c);
+            }
           }
           // "every request from k on fails" at a few positions
           for (uint64_t q = 0; q < 4 && R.n[kind] > 0; q++) {
@@ -961,14 +1549,18 @@ static void calibrate_call_sites(vh::Ctx& ctx) {
 
 void vh_init(const vh::Opts& o, vh::Ctx& ctx) {
   setvbuf(stdout, nullptr, _IONBF, 0);   // LeakSanitizer's exit path does not flush stdio
+  { void* tmp[4]; (void)backtrace(tmp, 4); }   // loads the unwinder outside of any fault window
   calibrate_call_sites(ctx);
   fi::g_exclude_constpool_shared = ctx.is_known(kKeyConstPoolShared);
+  g_excl_delta = ctx.is_known(kKeyDeltaReloc);
   fi::S.live = new std::unordered_map<void*, fi::Blk>();
   fi::S.maps = new std::unordered_map<void*, size_t>();
   fi::S.fds = new std::set<int>();
   long only = o.geti("only", 0);
   if (only) for (int w = 1; w <= 5; w++) g_enable[w] = (only == w);
   g_lsan_every = uint64_t(o.geti("lsan", 1));
+  fi::g_trace_fail = o.geti("trace", 0) != 0;
+  g_wa_init = o.geti("wa_init", 0) != 0;
 #ifdef C15_HAVE_W4
   warm_up_process_caches();
 #endif
@@ -980,6 +1572,7 @@ void vh_fini(const vh::Opts& o, vh::Ctx& ctx) {
     if (o.worker == 0) {
       std::string s = "fault points enumerated (requests of the fixed instantiations, every k from 0 to the count):";
       for (auto& kv : g_enum_points) s += " " + kv.first + "=" + std::to_string(kv.second);
+      s += "; distinct requesting functions (site-targeted persistent-failure plans): " + std::to_string(g_enum_sites.size());
       s += "; enumerated plans in total: " + std::to_string(g_enum->size());
       ctx.notes.push_back(s);
     }
